@@ -327,4 +327,9 @@ def r9_clone(F, R):
     R.floor(3)
 
 
-RULES = [("R6", r6, None), ("R1", r1, None), ("R2", r2, None), ("R3", r3, None), ("R4", r4, None), ("R5", r5, None), ("R7", r7, None), ("R8", r8, None), ("R9", r9_clone, None)]
+def r10_setters(F, R):
+    """The builder half of the precedence chain: each retry / concurrency / fail-fast builder method stores its argument in the like-named field (runner) or forwards to the like-named runner method with all its arguments (Cucumber)."""
+    roles.check_all_builder_setters(F, R, only=r"^(retries|retry_after|retry_filter|retry_options|max_concurrent_scenarios|fail_fast)$", floor=10)
+
+
+RULES = [("R6", r6, None), ("R1", r1, None), ("R2", r2, None), ("R3", r3, None), ("R4", r4, None), ("R5", r5, None), ("R7", r7, None), ("R8", r8, None), ("R9", r9_clone, None), ("R10", r10_setters, None)]
